@@ -203,15 +203,15 @@ func Render(items []SItem, st Style) string {
 
 // PItem is one item of an abstract progression: meaning, not spelling.
 type PItem struct {
-	Rest bool    `json:"rest,omitempty"`
-	Deg  IV      `json:"deg"` // root above the tonic: number 1..7 (or compound), quality major/perfect, minor/dim (b), augmented (#)
-	Sym  string  `json:"sym,omitempty"`
-	Bass *IV     `json:"bass,omitempty"` // above the root
-	Vals []Frac  `json:"vals"`
-	Key  *string `json:"key,omitempty"` // {key=K'}: applies from this item onwards
-	BPM  *int    `json:"bpm,omitempty"`
-	Vel  *string `json:"vel,omitempty"`
-	Mtr  *Frac   `json:"mtr,omitempty"`
+	Rest bool        `json:"rest,omitempty"`
+	Deg  IV          `json:"deg"` // root above the tonic: number 1..7 (or compound), quality major/perfect, minor/dim (b), augmented (#)
+	Sym  string      `json:"sym,omitempty"`
+	Bass *IV         `json:"bass,omitempty"` // above the root
+	Vals []Frac      `json:"vals"`
+	Key  *string     `json:"key,omitempty"` // {key=K'}: applies from this item onwards
+	BPM  *int        `json:"bpm,omitempty"`
+	Vel  *string     `json:"vel,omitempty"`
+	Mtr  *Frac       `json:"mtr,omitempty"`
 	Txt  [][2]string `json:"txt,omitempty"` // txt / lic / mrk / other
 }
 
